@@ -219,7 +219,10 @@ static int do_pump(struct iv_fd_pump *ip, struct pstate *ps)
 		if (pollin_req && moved_out == 0 && b1 > 0 && !at_eof0 && 0) { /* no rule: buffer may have space */ }
 		if (!pollin_req && moved_out > 0 && !at_eof0)
 			FAIL("pollin-not-restored", "pump moved %ld bytes to the output (space was made) but does not request input again", moved_out);
-		if (at_eof0 && prev_pollin && pollin_req && !fault_pct && !(no_splice == 0 && b1 > 0))
+		/* (a call that starts with a full buffer does not look at the input at all: it drains first and asks for input again.
+		 * In splice mode "full" is a matter of pipe buffer slots, sixteen one-byte chunks fill it, so any buffered data may mean
+		 * full; in read/write mode it is the 4096-byte buffer) */
+		if (at_eof0 && prev_pollin && pollin_req && !fault_pct && !(no_splice == 0 && (b1 > 0 || b0 > 0)) && !(no_splice && b0 >= 4096))
 			FAIL("pollin-after-eof", "pump read end-of-file but still requests input");
 	}
 	if (b1 > 0 && !pollin_req) vz_label(L_BACKPRESSURE);
